@@ -430,19 +430,33 @@ impl<T: Qcow2IoOps> Qcow2Dev<T> {
 
         let mapping = l2_table.get_mapping(&self.info, &split);
         if mapping.plain_offset(0).is_none() {
-            let _ = self.alloc_and_map_cluster(&split, &mut l2_table).await?;
-            l2_handle.set_dirty(true);
-            self.mark_need_flush(true);
-
-            // the preallocation of one zero cluster is replaced by the new
-            // cluster, so drop its reference
-            if mapping.source == MappingSource::Zero {
-                if let Some(old) = mapping.cluster_offset {
-                    self.free_clusters(old, 1).await?;
+            match Self::zero_preallocation(&mapping) {
+                Some(host_off) => {
+                    // its stale content has to be zeroed before the first write,
+                    // same with any new cluster
+                    self.mark_new_cluster(host_off >> self.info.cluster_bits())
+                        .await;
+                    let _ = l2_table.map_cluster(split.l2_slice_index(&self.info), host_off);
+                }
+                None => {
+                    let _ = self.alloc_and_map_cluster(&split, &mut l2_table).await?;
                 }
             }
+            l2_handle.set_dirty(true);
+            self.mark_need_flush(true);
         }
         Ok(l2_table.get_entry(&self.info, &split))
+    }
+
+    /// The preallocated host cluster of one zero cluster, which is reused as
+    /// its data cluster on write: no allocation, and nothing to free, so the
+    /// refcount stays right whichever of the old and new mapping is on disk
+    fn zero_preallocation(mapping: &Mapping) -> Option<u64> {
+        if mapping.source == MappingSource::Zero && mapping.copied {
+            mapping.cluster_offset
+        } else {
+            None
+        }
     }
 
     /// don't pre-populate mapping for backing & compressed cow, which
@@ -495,18 +509,24 @@ impl<T: Qcow2IoOps> Qcow2Dev<T> {
             )
         };
 
-        // figure out how many clusters to allocate for write
+        // figure out how many clusters to allocate for write, and the
+        // preallocation of one zero cluster is reused instead
         let mut nr_clusters = 0;
+        let mut nr_reused = 0;
         for this_off in (start..end).step_by(cls_size as usize) {
             let s = SplitGuestOffset(this_off);
             let mapping = l2_table.get_mapping(&self.info, &s);
 
             if Self::need_make_mapping(&mapping, info) {
-                nr_clusters += 1
+                if Self::zero_preallocation(&mapping).is_some() {
+                    nr_reused += 1
+                } else {
+                    nr_clusters += 1
+                }
             }
         }
 
-        if nr_clusters == 0 {
+        if nr_clusters == 0 && nr_reused == 0 {
             for this_off in (start..end).step_by(cls_size as usize) {
                 let s = SplitGuestOffset(this_off);
                 let entry = l2_table.get_entry(info, &s);
@@ -515,57 +535,57 @@ impl<T: Qcow2IoOps> Qcow2Dev<T> {
             return Ok(((end - start) as usize) >> info.cluster_bits());
         }
 
-        let (cluster_start, cluster_cnt) = match self.allocate_clusters(nr_clusters).await? {
-            Some((s, c)) => (s, c),
-            None => match self.allocate_cluster().await? {
-                Some(res) => res,
-                None => return Err("running out of cluster space".into()),
-            },
+        let (cluster_start, cluster_cnt) = if nr_clusters == 0 {
+            (0, 0)
+        } else {
+            match self.allocate_clusters(nr_clusters).await? {
+                Some((s, c)) => (s, c),
+                None => match self.allocate_cluster().await? {
+                    Some(res) => res,
+                    None => return Err("running out of cluster space".into()),
+                },
+            }
         };
 
         let mut this_off = start;
-        let done = if cluster_cnt > 0 {
-            // how many mappings are updated
-            let mut idx = 0;
+        // how many allocated clusters are used
+        let mut idx = 0;
+        // how many mappings are updated
+        let mut done = 0;
 
-            while this_off < end {
-                let split = SplitGuestOffset(this_off);
-                let entry = l2_table.get_entry(info, &split);
-                let mapping = entry.into_mapping(info, &split);
+        while this_off < end {
+            let split = SplitGuestOffset(this_off);
+            let entry = l2_table.get_entry(info, &split);
+            let mapping = entry.into_mapping(info, &split);
 
-                if Self::need_make_mapping(&mapping, info) {
-                    let l2_off = cluster_start + ((idx as u64) << info.cluster_bits());
-
-                    // this is one new cluster
-                    self.mark_new_cluster(l2_off >> info.cluster_bits()).await;
-
-                    let _ = l2_table.map_cluster(split.l2_slice_index(info), l2_off);
-
-                    // the preallocation of one zero cluster is replaced by the
-                    // new cluster, so drop its reference
-                    if mapping.source == MappingSource::Zero {
-                        if let Some(old) = mapping.cluster_offset {
-                            self.free_clusters(old, 1).await?;
+            if Self::need_make_mapping(&mapping, info) {
+                let l2_off = match Self::zero_preallocation(&mapping) {
+                    Some(host_off) => host_off,
+                    None => {
+                        // allocated clusters are used up, and caller will retry
+                        // from this offset
+                        if idx >= cluster_cnt {
+                            break;
                         }
+                        idx += 1;
+                        cluster_start + (((idx - 1) as u64) << info.cluster_bits())
                     }
+                };
 
-                    //load new entry
-                    let entry = l2_table.get_entry(info, &split);
-                    l2_entries.push(entry);
-                    idx += 1;
-                } else {
-                    l2_entries.push(entry)
-                }
+                // this is one new cluster
+                self.mark_new_cluster(l2_off >> info.cluster_bits()).await;
+                let _ = l2_table.map_cluster(split.l2_slice_index(info), l2_off);
 
-                this_off += cls_size;
-                if idx >= cluster_cnt {
-                    break;
-                }
+                //load new entry
+                let entry = l2_table.get_entry(info, &split);
+                l2_entries.push(entry);
+                done += 1;
+            } else {
+                l2_entries.push(entry)
             }
-            idx
-        } else {
-            0
-        };
+
+            this_off += cls_size;
+        }
 
         if done > 0 {
             l2_handle.set_dirty(true);
